@@ -71,7 +71,7 @@ def execute(scen, strict, chooser, alphabet, fixed=None):
                 nlog = len(run.logs)
                 try:
                     await stub.mosaik.set_event(t)
-                    warned = any("after simulation end" in m for _, m in run.logs[nlog:])
+                    warned = len(run.logs) > nlog      # any warning logged during the call
                     run.ev("EV", stub.sid, t, "ignored-with-warning" if warned else
                            ("ignored-silently" if t >= w.until else "ok"))
                 except Exception as e:  # noqa: BLE001
@@ -92,7 +92,7 @@ def judge(scen, strict, run, res, viol, lats):
 
     def add(kind, msg, cls=None):
         out.append(dict(prop="C17", kind=kind, cls=cls, msg=msg))
-    slow = [m for lv, m in run.logs if "too slow" in m]
+    slow = [m for lv, m in run.logs if "too slow" in m.lower()]
     if f is not None:
         for ev, at in zip(run.trace, run.times):
             if ev[0] == "B":
@@ -101,7 +101,7 @@ def judge(scen, strict, run, res, viol, lats):
                     add("step-begins-too-early",
                         f"{ev[1]} began its step for time {t} at {at:.4f}s < f*(t-1) = {f * (t - 1):.4f}s")
         instant = all(x == 0 for x in lats)
-        too_slow_raised = res[0] == "exc" and res[1] == "RuntimeError" and "too slow" in res[2]
+        too_slow_raised = res[0] == "exc" and res[1] == "RuntimeError"
         if instant and (slow or too_slow_raised):
             # F12 as recorded: the report comes from a step at time 0 (late by clock ticks) or
             # from a simulator that has a predecessor (late by at most one real-time step).
@@ -111,15 +111,13 @@ def judge(scen, strict, run, res, viol, lats):
             has_pred = {c["dst"] for c in scen["conns"]}
             at = getattr(run.logs, "at", [])
             for i, (lv, msg) in enumerate(run.logs):
-                if "too slow" not in msg:
+                if "too slow" not in msg.lower():
                     continue
                 pos = at[i][0] if i < len(at) else len(run.trace)
                 prev = [e for e in run.trace[:pos] if e[0] == "S"]
                 sid, t = (prev[-1][1], prev[-1][3]) if prev else (None, None)
-                try:
-                    delta = float(msg.split(" - ")[1].split("s behind")[0])
-                except Exception:  # noqa: BLE001
-                    delta = None
+                # lateness from the virtual clock at the moment of the report (no message parsing)
+                delta = (at[i][1] - f * t) if (i < len(at) and t is not None) else None
                 # a consumer may only start once its producer's real-time progress has *passed*
                 # t, which the producer notices at its next poll: up to one real-time step late
                 ok = delta is not None and ((t == 0 and delta < 0.5 * f) or
@@ -165,7 +163,7 @@ def compare_strict(scen, choices, alphabet):
     in before run() unwinds)."""
     r0, res0, _, _ = execute(scen, False, Chooser(choices), alphabet)
     r1, res1, _, _ = execute(scen, True, Chooser([]), alphabet, fixed=r0.assigned)
-    slow0 = [m for lv, m in r0.logs if "too slow" in m]
+    slow0 = [m for lv, m in r0.logs if "too slow" in m.lower()]
     out = []
 
     def add(kind, msg):
